@@ -10,7 +10,7 @@ def ContextCheckInterval : Nat := 10000
 end cloudconst
 
 namespace Skel
-def CopyWithControl : List String := ["counter.Add", "counter.Add", "src.Read", "waitLimiterN", "dst.Write", "counter.Add"]
+def CopyWithControl : List String := ["counter.Add", "src.Read", "waitLimiterN", "dst.Write", "counter.Add", "counter.Add"]
 def runBridgeLifecycle : List String := ["bridge.Close", "bridge.Start", "bridgeLock.Lock", "delete", "bridgeLock.Unlock", "tunnelRouting.RemoveWaitingTunnel"]
 def waitLimiterN : List String := ["limiter.Burst", "limiter.WaitN", "limiter.WaitN"]
 end Skel
